@@ -126,6 +126,12 @@ Definition run_case (c : sexp) : sexp :=
     (* (oflags MODE): util.go oflags as (access truncate create), access 0 = O_RDONLY, 1 = O_WRONLY, 2 = O_RDWR *)
     let f := ufs_oflags (get_N (arg c 0)) in
     SList [snat (match of_acc f with RDONLY => 0 | WRONLY => 1 | RDWR => 2 end)%N; sbool (of_trunc f); sbool (of_creat f)]
+  else if head_is c "relseq" then
+    (* (relseq #root UMASK OP...): a server created from a RELATIVE root while the working
+       directory does not exist: Base = Clean(root) stays relative and the kernel resolves nothing *)
+    let A := impl_alg (path_clean (get_bytes (arg c 0))) in
+    let ops := flat_map (fun x => match parse_op x with Some o => [o] | None => [] end) (skipn 3 (get_list c)) in
+    SList (ssym "obs" :: map sexp_obs (snd (run hcall_posix A (init (sandbox (get_N (arg c 1)))) ops)))
   else if head_is c "seq" then
     let h0 := sandbox (get_N (arg c 0)) in
     (* (root K) records which spelling of the export path the harness gave NewServer;
